@@ -384,85 +384,95 @@ def _slice_of(t: Term):
     return t, None, None
 
 
-def _chain_pos(t: Term):
-    """(sequence, loop id, offset, mode) if `t` is the element of a sequence at a loop-dependent position.
+def _slice_len(lo, hi):
+    """c such that len(s[lo:hi]) == len(s) + c for sequences that are long enough (lo >= 0, hi <= 0 or absent); None otherwise."""
+    lo = lo or 0
+    if lo < 0 or (hi is not None and hi > 0):
+        return None
+    return -lo + (hi or 0)
 
-    mode: "pairs"  - the loop visits all consecutive pairs (s[j], s[j+1]), offset 0 = first, 1 = second member
-          ("each", lo, hi) - the loop visits every element of s[lo:hi]
-          ("range", args)  - s[i + offset] for i in range(*args)"""
+
+def _len_offset(t: Term, s: Term):
+    """c if `t` is `len(s) + c` (also through `len(s[lo:hi])`), else None."""
+    if t[0] == "binop" and t[1] in ("+", "-") and t[3][0] == "const" and isinstance(t[3][1], int):
+        inner = _len_offset(t[2], s)
+        return None if inner is None else inner + (t[3][1] if t[1] == "+" else -t[3][1])
+    if t[0] == "call" and t[1] == ("builtin", "len") and len(t[2]) == 1:
+        base, lo, hi = _slice_of(t[2][0])
+        if base == s:
+            return _slice_len(lo, hi)
+    return None
+
+
+def _counter(i: Term):
+    """(loop id, a, stop term or None, sequence whose length bounds the loop or None) if the integer `i` is `j + a` for the
+    iteration counter j = 0, 1, ... of a loop."""
+    off = 0
+    while i[0] == "binop" and i[1] in ("+", "-") and i[3][0] == "const" and isinstance(i[3][1], int):
+        off += i[3][1] if i[1] == "+" else -i[3][1]
+        i = i[2]
+    if i[0] == "elem" and i[1][0] == "call" and i[1][1] == ("builtin", "range") and not i[1][3]:
+        args = i[1][2]
+        if len(args) == 1:
+            return i[2], off, ("const", 0), args[0]
+        if len(args) == 2 and args[0][0] == "const" and isinstance(args[0][1], int):
+            return i[2], off + args[0][1], args[0], args[1]
+    return None
+
+
+def _chain_pos(t: Term):
+    """(sequence s, loop id, offset, c): `t` is s[j + offset] in iteration j = 0 .. len(s) + c - 1 of the loop; None if not of that form.
+
+    Covers `for x in s[lo:hi]`, `zip(s[:-1], s[1:])`, `zip(s, s[1:])`, `zip(p, p[1:] + [x])`, `itertools.pairwise(s)`,
+    `for i in range(..): s[i + k]` and `enumerate`."""
     if t[0] == "elem":
         src, k = t[1], t[2]
         if src[0] == "call" and src[1] in (("builtin", "zip"), ("builtin", "enumerate"), ("builtin", "range")):
             return None
         s_, lo, hi = _slice_of(src)
-        return s_, k, 0, ("each", lo, hi)
+        c = _slice_len(lo, hi)
+        if c is None:
+            return None
+        return s_, k, lo or 0, c
     if t[0] == "idx":
         base, i = t[1], t[2]
         if base[0] == "elem" and base[1][0] == "call" and i[0] == "const" and i[1] in (0, 1):
             it = base[1]
             if it[1] == ("builtin", "zip") and len(it[2]) == 2:
                 a, b = _slice_of(it[2][0]), _slice_of(it[2][1])
-                if a[0] == b[0] and b[1:] == (1, None) and a[1:] in ((None, -1), (None, None)):
-                    return a[0], base[2], i[1], "pairs"
-                # zip(p, p[1:] + [c]) walks the consecutive pairs of p + [c]
+                ca, cb = _slice_len(a[1], a[2]), _slice_len(b[1], b[2])
+                if a[0] == b[0] and ca is not None and cb is not None:
+                    mine = (a, b)[i[1]]
+                    return mine[0], base[2], mine[1] or 0, min(ca, cb)
+                # zip(p, p[1:] + [x]) walks the consecutive pairs of p + [x]
                 tail = seq(it[2][1])
                 if a[1:] == (None, None) and len(tail) == 2 and tail[0][0] == "many" and _slice_of(tail[0][1]) == (a[0], 1, None) and tail[1][0] == "one":
-                    return ("binop", "+", a[0], ("list", (tail[1][1],))), base[2], i[1], "pairs"
+                    return ("binop", "+", a[0], ("list", (tail[1][1],))), base[2], i[1], -1
                 return None
             if it[1][0] == "lib" and it[1][1].endswith("pairwise") and len(it[2]) == 1:
-                return it[2][0], base[2], i[1], "pairs"
-        off = 0
-        if i[0] == "binop" and i[1] in ("+", "-") and i[3][0] == "const" and isinstance(i[3][1], int):
-            off = i[3][1] if i[1] == "+" else -i[3][1]
-            i = i[2]
-        if i[0] == "elem" and i[1][0] == "call" and i[1][1] == ("builtin", "range") and not i[1][3]:
-            return base, i[2], off, ("range", i[1][2])
-    return None
-
-
-def _len_offset(t: Term, s: Term):
-    """c if `t` is `len(s) + c`, else None."""
-    ln = ("call", ("builtin", "len"), (s,), ())
-    if t == ln:
-        return 0
-    if t[0] == "binop" and t[1] in ("+", "-") and t[2] == ln and t[3][0] == "const" and isinstance(t[3][1], int):
-        return t[3][1] if t[1] == "+" else -t[3][1]
+                return it[2][0], base[2], i[1], -1
+            return None
+        cnt = _counter(i)
+        if cnt is not None:
+            k, off, start, stop = cnt
+            c = _len_offset(stop, base)
+            if c is None:
+                return None
+            return base, k, off, c - start[1]
     return None
 
 
 def _index_span(pos):
-    """(first index, last index relative to len(s)) visited by a position: e.g. (0, -2) = s[0] .. s[len-2]; None if unknown."""
-    s_, _k, off, mode = pos
-    if mode == "pairs":
-        return (off, -2 + off)
-    if mode[0] == "each":
-        lo, hi = mode[1], mode[2]
-        if lo is not None and lo < 0 or hi is not None and hi >= 0:
-            return None
-        return (lo or 0, -1 if hi is None else hi - 1)
-    if mode[0] == "range":
-        args = mode[1]
-        start: Term = ("const", 0)
-        if len(args) == 1:
-            stop = args[0]
-        elif len(args) == 2:
-            start, stop = args
-        else:
-            return None
-        c = _len_offset(stop, s_)
-        if start[0] != "const" or not isinstance(start[1], int) or c is None:
-            return None
-        return (start[1] + off, c - 1 + off)
-    return None
+    """(first index, last index relative to len(s)) visited by a position: e.g. (0, -2) = s[0] .. s[len-2]."""
+    _s, _k, off, c = pos
+    return (off, c + off - 1)
 
 
 def _covers_all_pairs(parent, child) -> bool:
     """The loop visits (s[j], s[j+1]) for every j in 0 .. len(s) - 2."""
     if parent[0] != child[0] or parent[1] != child[1] or child[2] != parent[2] + 1:
         return False
-    if parent[3] != child[3] or parent[3][0] == "each":
-        return False
-    return _index_span(parent) == (0, -2)
+    return parent[2] == 0 and parent[3] == -1 and child[3] == -1
 
 
 class _Names:
@@ -550,15 +560,40 @@ def _holds_whenever_state_allows(f: Formula, free: set[str]) -> bool:
     return True
 
 
+def _ancestors_function(repo: Repo, T) -> FuncInfo | None:
+    """The function that computes all parent modules of a dotted name: by role, it is what the public `Import.importer_parent_modules()`
+    returns for `Import(importer)`; falls back to the name it has today."""
+    imp = repo.modules.get(TYPES)
+    ci = imp.classes.get("Import") if imp is not None else None
+    if ci is not None:
+        init = ci.methods.get("__init__")
+        acc = ci.methods.get("importer_parent_modules")
+        if init is not None and acc is not None and len(init.param_names) >= 2:
+            try:
+                sx = SymX(repo, T, policy=lambda caller, callee: False)
+                tr = sx.run(init)
+                heap = tr.final.heap if tr.final is not None else {}
+                sx2 = SymX(repo, T, policy=lambda caller, callee: False)
+                tr2 = sx2.run(acc, heap=heap)
+                vals = {t for _pc, t in tr2.returns}
+                if len(vals) == 1:
+                    v = vals.pop()
+                    if v[0] == "call" and v[1][0] == "fn" and v[2] == (("param", init.param_names[1]),):
+                        return repo.funcs.get(v[1][1])
+            except AnalysisError:
+                pass
+    return repo.find_func(TYPES, "get_parent_modules")
+
+
 def rule_r4(repo: Repo, res: Result) -> None:
     T = types_of(repo)
     g = repo.cls(NXGRAPH, "NetworkxGraph")
     init = g.methods.get("__init__")
     if init is None:
         raise AnalysisError("NetworkxGraph.__init__ not found")
-    gpm = repo.find_func(TYPES, "get_parent_modules")
+    gpm = _ancestors_function(repo, T)
     if gpm is None:
-        raise AnalysisError("pytestarch.eval_structure.types::get_parent_modules (imported by the graph and the import types) not found")
+        raise AnalysisError("the function computing the parent modules of a module (get_parent_modules, used by Import.importer_parent_modules) was not found")
     p = init.param_names
     if len(p) < 3:
         raise AnalysisError("NetworkxGraph.__init__(all_modules, imports, level_limit): signature not recognised")
